@@ -440,3 +440,13 @@ Section MemoProofs.
     - exact (m_store V F [(k, MMiss V)] (fun _ => None) 0 k eq_refl).
   Qed.
 End MemoProofs.
+
+(* ---------- recycled objects ---------- *)
+
+Lemma pool_reuse_lemma (V : Type) (o : pobj V) ws rs (own : nat -> V) :
+  (forall f, In f rs -> In f ws) -> pobserve V (pfill V o ws own) rs = map own rs.
+Proof.
+  intro H. unfold pobserve. apply map_ext_in. intros f Hf. unfold pfill.
+  destruct (memb f ws) eqn:E; [reflexivity|].
+  apply H, memb_In in Hf. congruence.
+Qed.
